@@ -241,17 +241,21 @@ def resolveQ (oq : Option QN) (m : XmlMeta) : QN :=
   | some q => if q.isEmpty then m.qname else q
   | none => m.qname
 
+/-- `convert_value` of one (var, value) pair plus the wrapper element -/
+def genField (e : BEnv) (Γ : Ctx) (cfg : SerCfg) (f : Nat) (ns : Option Str) (vv : XmlVar × Val) :
+    Except Err (List Ev) := do
+  let inner ← genValue e Γ cfg f vv.2 vv.1 ns
+  match vv.1.wrapperQName with
+  | some w => pure ([Ev.start w] ++ inner ++ [Ev.end w])
+  | none => pure inner
+
 theorem genObj_unfold (e : BEnv) (Γ : Ctx) (cfg : SerCfg) (f : Nat) (c : ClassId)
     (fields : List (Str × Val)) (pns : Option Str) (oq : Option QN) (m : XmlMeta)
     (hm : metaOf Γ c pns = some m) (hn : m.nillable = false) :
     genObj e Γ cfg (f + 1) (.obj c fields) pns oq false none = (do
       let attrs ← nextAttribute cfg m fields false none
       let vals ← nextValue m fields
-      let body ← vals.mapM (fun (vv : XmlVar × Val) => do
-        let inner ← genValue e Γ cfg f vv.2 vv.1 (targetUri (resolveQ oq m))
-        match vv.1.wrapperQName with
-        | some w => pure ([Ev.start w] ++ inner ++ [Ev.end w])
-        | none => pure inner)
+      let body ← vals.mapM (genField e Γ cfg f (targetUri (resolveQ oq m)))
       return [Ev.start (resolveQ oq m)] ++ attrs ++ body.flatten ++ [Ev.end (resolveQ oq m)]) := by
   have hfetch : Γ.fetch c pns none = .ok m := by
     simp only [metaOf] at hm
